@@ -293,7 +293,7 @@ class C15(Harness):
     op = 'accessor'
     crates = ('deb822', 'control', 'copyright', 'dep3')
     fuel = 600000
-    bounds = {'quick': {'families': ['set', 'pair', 'parsed', 'find'], 'string_chars': 2}, 'thorough': {'families': ['set', 'pair', 'parsed', 'find'], 'string_chars': 3}}
+    bounds = {'quick': {'families': ['set', 'pair', 'parsed', 'find'], 'pair_values': 'one-character values, prior states absent / present'}, 'thorough': {'families': ['set', 'pair', 'parsed', 'find'], 'pair_values': 'the full value domain and all four prior states in the pair family too'}}
     assumptions = ['the accessor table (146 setters with their getters) is read from the current source; the Debian field name each accessor stands for comes from the accessor name (snake_case -> Capitalised-Hyphenated) plus a 14-entry exception table',
                    'values: strings are 1-2 symbolic alphanumerics or empty; lists 0-2 one-letter items (for an empty string / list only the integrity of the paragraph is judged, not what the getter returns); relations "a" / "a, b" / "a (>= 1) | b" with symbolic names; versions "d.d"; sizes symbolic < 10^6; every enum variant; checksum lists of 1-2 symbolic triples; two fixed timestamps / dates; urls https://e.example/<letter> (url and chrono are evaluated natively on the concretised text)',
                    'prior states of the paragraph: field absent between two foreign fields / present between them / present after a comment with extra spacing / absent with a single foreign field',
@@ -319,7 +319,7 @@ class C15(Harness):
             if len(rows) < 2: continue
             for i, r in enumerate(rows):
                 r2 = rows[(i + 1) % len(rows)]
-                cs.append({'fam': 'pair', 'acc': r, 'field': expected_field(r), 'acc2': r2, 'field2': expected_field(r2), 'name': 'pair:%s::%s+%s' % (k, r['setter'], r2['setter']), 'order': 1})
+                cs.append({'fam': 'pair', 'acc': r, 'field': expected_field(r), 'acc2': r2, 'field2': expected_field(r2), 'name': 'pair:%s::%s+%s' % (k, r['setter'], r2['setter']), 'order': 1, 'full': tier == 'thorough'})
         for r in t:
             g = r['getter']
             if not g or (accessors_key(r), g) in PARSED_SKIP: continue
@@ -391,11 +391,11 @@ class C15(Harness):
         if case['fam'] == 'parsed': return self.run_parsed(e, case)
         if case['fam'] == 'find': return self.run_find(e, case)
         r = case['acc']; field = case['field']
-        self.pairmode = case['fam'] == 'pair'
+        self.pairmode = case['fam'] == 'pair' and not case.get('full')
         text, state = self.base_text(e, r, field, self.kind_of(r))
         x, h = self.open_view(e, r, o(text))
         before = self.doc_text(e, h)
-        self.short = case['fam'] == 'pair'
+        self.short = case['fam'] == 'pair' and not case.get('full')
         steps = []; getters = [r['getter']] if r['getter'] else (['bugs'] if 'bug' in r['setter'] else [])
         fields = []; expects = []; clears = []
         e.inputs.update(s=Str(o(text)), type='%s::%s::%s' % (r['crate'], r['module'], r['type']), steps=steps, getters=getters, getter_args=['Tag'], prior=state, fields=fields, expect=expects, clear=clears)
@@ -410,7 +410,7 @@ class C15(Harness):
             g = self.read(e, x, r)
             checks.append(('%s: the getter returns what %s wrote' % (r['getter'], r['setter']), getter_matches(e, g, val.expect, r['crate'])))
         if case['fam'] == 'pair':
-            r2 = case['acc2']; val2 = gen_value(e, r2, allow_clear=False, short=True)
+            r2 = case['acc2']; val2 = gen_value(e, r2, allow_clear=False, short=not case.get('full'))
             fld2 = getattr(val2, 'field', case['field2'])
             steps.append({'setter': r2['setter'], 'args': val2.js}); fields.append(fld2); expects.append(expect_json(val2.expect)); clears.append(False)
             if r2['getter'] and r2['getter'] not in getters: getters.append(r2['getter'])
